@@ -420,6 +420,12 @@ func c04Phase(c *vk.Ctx, r *rand.Rand, natTimeout time.Duration, expiry bool) bo
 			continue
 		}
 		tgt := w.targets[0]
+		if yi == 2 {
+			// this client's very first datagram cannot be sent on (destination port 0: the write to the
+			// target fails); it is authenticated and its destination allowed, so the association exists
+			cl.Send(ssUDP(k, randBytes(r, k.Codec().C.SaltSize), sscodec.AddrIP(tgt.Addr.IP, 0, false), mkUDPPayload(nextID(c.Batch), 0, 0, 24)), w.rig.Addr4())
+			time.Sleep(20 * time.Millisecond)
+		}
 		id := nextID(c.Batch)
 		cl.Send(ssUDP(k, randBytes(r, k.Codec().C.SaltSize), tgt.addr(), mkUDPPayload(id, 0, 0, 24)), w.rig.Addr4())
 		g, ok := tgt.waitID(id, udpB)
